@@ -239,7 +239,11 @@ Inductive case :=
         (t36 t58 t32 : str)                        (* String(), Peer().String(), base32 CID text *)
         (back : list (option str))                 (* NameFromString of t36, "/ipns/"+t36, t58, t32; NameFromRoutingKey(rk);
                                                       NameFromCid(Cid()); NameFromPeer(Peer()) — as multihash bytes *)
-| CRkey (data : str) (mh_valid : bool) (res : option str).   (* NameFromRoutingKey(data); mh_valid = multihash.Cast(rest) ok *)
+| CRkey (data : str) (mh_valid : bool) (res : option str)    (* NameFromRoutingKey(data); mh_valid = multihash.Cast(rest) ok *)
+| CFromCid (codec : N) (mh : str) (res : option str)          (* NameFromCid(CIDv1(codec, mh)) *)
+| CFromStr (s : str) (cidtbl : list (str * (N * N * str))) (b58tbl : list (str * str)) (res : option str).
+     (* NameFromString(s); the tables say what cid.Decode / multihash.FromB58String answer for s and for s
+        without "/ipns/": (version, codec, multihash) / multihash *)
 
 Definition no_dots (s : str) : bool :=
   forallb (fun x => negb (is_dot x) && negb (is_dotdot x)) (split s).
@@ -276,4 +280,12 @@ Definition check_case (c : case) : verdict :=
                  (forallb (fun x => ostr_eqb x ok) back && (7 =? N.of_nat (length back)))
   | CRkey data mh_valid res =>
       verdict_of (ostr_eqb (name_from_routing_key (fun _ => mh_valid) data) res) true
+  | CFromCid codec mh res =>
+      verdict_of (ostr_eqb (name_from_cid (mkCid 1 codec mh)) res) true
+  | CFromStr s cidtbl b58tbl res =>
+      let dec_cid x := match find (fun kv => str_eqb (fst kv) x) cidtbl with
+                       | Some (_, (v, co, m)) => Some (mkCid v co m)
+                       | None => None
+                       end in
+      verdict_of (ostr_eqb (name_from_string dec_cid (dec_of b58tbl) s) res) true
   end.
